@@ -161,6 +161,27 @@ func runC06(c *Ctx) {
 		})
 	}
 	c.Floor("C06.P1-must-publish", 6)
+	// a refresh round is abandoned only because the caller's context ended: a source that fails (whatever error it
+	// returns) is skipped and the remaining sources are still applied
+	nAb := 0
+	for _, w := range writers {
+		for _, cs := range c.Calls(w.SSA, Invoke("pcache.ProviderSource.FetchAll")) {
+			errv := c.Result(cs, 1)
+			for _, b := range w.SSA.Blocks {
+				ret, ok := b.Instrs[len(b.Instrs)-1].(*ssa.Return)
+				if !ok {
+					continue
+				}
+				if _, onErr := c.GuardedB(b, EqNil(Is(errv)), false); !onErr {
+					continue
+				}
+				nAb++
+				_, ctxDone := c.GuardedB(b, EqNil(Invoke("context.Context.Err")), false)
+				c.Check(ctxDone, "C06.P1-abandon-only-when-cancelled", w.Name+" › return on a source error", ret.Pos(), "a source error ends the round only on the ctx.Err() != nil edge", "the round is abandoned on a source's error without testing the caller's own context: one failing source keeps the other sources' newer records and new providers from being applied, while the refresh reports no error")
+			}
+		}
+	}
+	c.Floor("C06.P1-abandon-only-when-cancelled", 1)
 
 	// ---- P2 newest wins ---------------------------------------------------------------
 	pcacheNewestWins(c, "C06.P2-newest-wins")
